@@ -177,7 +177,21 @@ impl Prop for C18 {
 	}
 
 	fn next(&mut self, run: &mut Run) -> Option<Step> {
-		if let Some(s) = self.queue.pop() {
+		if let Some(mut s) = self.queue.pop() {
+			// "never selects a reverted output" holds for every minimum-confirmation
+			// setting; 0 is otherwise avoided (known family: spending unconfirmed outputs),
+			// so it is used only while the wallet holds no unconfirmed output
+			if let Op::InitSend { w, args } = &mut s.op {
+				if *w < run.ex.world.wallets.len() && run.ex.world.is_open(*w) {
+					let snap = run.ex.world.snap(*w);
+					let has_rev = snap.outputs.iter().any(|o| o.status == OutputStatus::Reverted);
+					let has_unconf = snap.outputs.iter().any(|o| o.status == OutputStatus::Unconfirmed);
+					if has_rev && !has_unconf && run.rng.chance(1, 2) {
+						args.min_conf = 0;
+						run.cov.probe("zero_conf_send_while_holding_reverted_output");
+					}
+				}
+			}
 			return Some(s);
 		}
 		if self.gen.setup_done && run.rng.chance(1, 7) && self.forks < 4 {
